@@ -77,11 +77,18 @@ def stored_order(rng, nnz, how):
     return [int(i) for i in idx]
 
 
-def mk_sptensor(ttb, A, order=None, dtype=None):
+def mk_sptensor(ttb, A, order=None, dtype=None, hist=None):
     """Sparse holder of ndarray A with nonzeros stored in the given order (list of positions into
-    the C-order argwhere list; None = argwhere order)."""
+    the C-order argwhere list; None = argwhere order).
+
+    hist = "grown-subs" | "grown-region": the holder is reached through the library's own history instead of the constructor -- a
+    smaller tensor on which element-wise operators have already been evaluated (warming anything an object may remember about
+    itself) and which is then enlarged by assignment (subscript-array form / element form) up to A."""
     A = np.asarray(A)
+    shape = tuple(int(s) for s in A.shape)
     subs = np.argwhere(A != 0)
+    if hist and dtype is None and A.ndim >= 1 and A.size and any(s_ > 1 for s_ in shape):
+        return _grown_sptensor(ttb, A, shape, subs if order is None or not subs.shape[0] else subs[np.asarray(order, dtype=int)], hist)
     if subs.shape[0] == 0:
         return ttb.sptensor(shape=A.shape)
     if order is not None:
@@ -89,7 +96,42 @@ def mk_sptensor(ttb, A, order=None, dtype=None):
     vals = A[tuple(subs.T)].reshape(-1, 1)
     if dtype is not None:
         vals = vals.astype(dtype)
-    return ttb.sptensor(subs.astype(int), vals.copy(), tuple(int(s) for s in A.shape))
+    return ttb.sptensor(subs.astype(int), vals.copy(), shape)
+
+
+def _grown_sptensor(ttb, A, shape, subs, hist):
+    small = tuple(max(1, (s_ + 1) // 2) for s_ in shape)
+    inside = np.all(subs < np.array(small), axis=1) if subs.shape[0] else np.zeros(0, dtype=bool)
+    vals = A[tuple(subs.T)].reshape(-1, 1).astype(float) if subs.shape[0] else np.zeros((0, 1))
+    if inside.any():
+        S = ttb.sptensor(subs[inside].astype(int), vals[inside].copy(), small)
+    else:
+        S = ttb.sptensor(shape=small)
+    # operators evaluated before the growth (their results are judged elsewhere)
+    S.logical_not()
+    S == 0  # noqa: B015
+    S != 1.5  # noqa: B015
+    S.allsubs()
+    rest, restv = subs[~inside].astype(int), vals[~inside]
+    corner = [s_ - 1 for s_ in shape]
+    if hist == "grown-subs" and len(shape) >= 2:
+        if rest.shape[0]:
+            S[rest.copy()] = restv.copy()
+        if tuple(int(x) for x in S.shape) != shape:
+            S[np.array([corner])] = 0.0
+    else:
+        for sub, v in zip(rest, restv[:, 0]):
+            S[tuple(int(x) for x in sub)] = float(v)
+        if tuple(int(x) for x in S.shape) != shape:
+            S[tuple(corner)] = 0.0
+    got = np.zeros(shape)
+    if tuple(int(x) for x in S.shape) != shape or (S.nnz and np.asarray(S.subs).shape[1] != len(shape)):
+        raise AssertionError(f"growing a sparse tensor by assignment gave shape {S.shape}, want {shape} (C04 territory)")
+    if S.nnz:
+        got[tuple(np.asarray(S.subs).T)] = np.asarray(S.vals).reshape(-1)
+    if not np.array_equal(got, A):
+        raise AssertionError("growing a sparse tensor by assignment did not produce the assigned entries (C04 territory)")
+    return S
 
 
 def mk_tensor(ttb, A, hist="ctor"):
